@@ -35,6 +35,9 @@ func main() {
 			j.TimersNeverFire = true
 			fmt.Sscanf(os.Getenv("SYMGO_PREEMPT"), "%d", &j.Preempt)
 			j.CanonicalBlock = os.Getenv("SYMGO_CANON") != ""
+			if e := os.Getenv("SYMGO_EAGER"); e != "" {
+				j.EagerCalls = strings.Split(e, ",")
+			}
 		}
 		if gc := os.Getenv("SYMGO_GOINLINECALLS"); gc != "" {
 			j.GoInlineCalls = strings.Split(gc, ",")
@@ -129,8 +132,13 @@ func printResult(id string, r *JobResult) {
 	for k, n := range cnt {
 		fmt.Printf("  violations x%d: %s\n", n, k)
 	}
+	shown := map[string]int{}
 	for i, v := range r.Violations {
-		if i > 10 {
+		shown[v.Kind+"|"+v.Msg]++
+		if shown[v.Kind+"|"+v.Msg] > 2 {
+			continue
+		}
+		if len(shown) > 12 {
 			fmt.Printf("  … %d more\n", len(r.Violations)-i)
 			break
 		}
